@@ -32,7 +32,7 @@ const classifierPkg = "mod/internal/tableclass"
 // exclude the content of nested tables. Rule T4: the converter makes data tables atomic and
 // walks layout tables.
 func C18(p *core.Program, r *core.Report) {
-	r.Explanation = "Decision-list conformance: every normalised branch path of tableclass.Classifier.Classify (loops unrolled once, comparisons normalised to x<=c / x==c, trivial helpers inlined) is replayed against the ordered cascade written down from the property text with three-valued logic; the code may not reach an outcome before a higher rule is decided and must reach the same (type, reason). Literal role/tag tables are compared by key set; getDirectDescendants and the converter's table case are checked the same way."
+	r.Explanation = "T6: the visibility predicate behind the has-valid-text question conforms (shared with C04-V3). T7: DomConverter.Convert does nothing to its deep clone between cloning and walking (no DOM mutator call and no store that reaches the clone), so the classifier sees the table as written. Decision-list conformance: every normalised branch path of tableclass.Classifier.Classify (loops unrolled once, comparisons normalised to x<=c / x==c, trivial helpers inlined) is replayed against the ordered cascade written down from the property text with three-valued logic; the code may not reach an outcome before a higher rule is decided and must reach the same (type, reason). Literal role/tag tables are compared by key set; getDirectDescendants and the converter's table case are checked the same way."
 	r.NotCovered = "the summation arithmetic of rowspan/colspan in getRowAndColumnCount (only which elements/attributes are counted is decided), hasValidText, CSS based rules of the original heuristic (not ported), behaviour for more than one loop iteration (loops are abstracted to 0/1 iterations)."
 
 	// The helpers that the cascade treats as atomic questions are identified by what they are
@@ -205,6 +205,14 @@ func C18(p *core.Program, r *core.Report) {
 	// T4: converter: data tables atomic, layout tables walked
 	checkConverterTableCase(p, r)
 
+	// T6: "has valid text" (rule 8a: caption, th) asks InnerText, which leaves out what
+	// IsProbablyVisible rejects: the visibility predicate conforms (shared with C04-V3)
+	checkVisibilityRules(p, r, "T6")
+	// T7: the classifier counts rows, columns and cells of the table as written (hidden ones
+	// included): the tree the converter walks - and hands to the classifier - is an unmodified
+	// deep clone of the document
+	checkConvertWalksFaithfulClone(p, r, "T7")
+
 	// T5: what counts as a row / a column: rows are tr elements (rowspan aware), columns are the
 	// td cells of a row (colspan aware). Decided on the constants handed to the DOM helpers.
 	var rc *ssa.Function
@@ -360,4 +368,42 @@ func reachableFrom(from, to *ssa.BasicBlock) bool {
 		}
 	}
 	return false
+}
+
+var domMutatorKeys = append([]string{"(*golang.org/x/net/html.Node).AppendChild", "(*golang.org/x/net/html.Node).InsertBefore",
+	"github.com/go-shiori/dom.AppendChild", "github.com/go-shiori/dom.PrependChild", "github.com/go-shiori/dom.SetAttribute", "github.com/go-shiori/dom.RemoveAttribute"}, removalKeys...)
+
+// checkConvertWalksFaithfulClone: in Convert (helpers expanded; the walk callbacks are separate
+// functions) the deep clone of the argument is handed to WalkNodes and nothing else touches it:
+// no DOM mutator is called on, and no store goes to, anything derived from the clone.
+func checkConvertWalksFaithfulClone(p *core.Program, r *core.Report, rule string) {
+	conv := mustInl(p, r, rule, "(*"+converterPkg+".DomConverter).Convert")
+	if conv == nil {
+		return
+	}
+	c := core.NewCanon(p)
+	clone := "dom.Clone($1,true)"
+	walks := core.Calls(conv, func(ci ssa.CallInstruction) bool { return core.IsCallTo(ci, domutilPkg+".WalkNodes") })
+	okWalk := len(walks) == 1 && c.Of(walks[0].Common().Args[0]) == clone
+	r.Add(rule, "Convert walks a deep clone of its argument", p.Pos(conv.Pos()), okWalk, fmt.Sprintf("%d WalkNodes calls", len(walks)))
+	var hits []string
+	for _, in := range instrsOf(conv) {
+		switch x := in.(type) {
+		case ssa.CallInstruction:
+			if !core.IsCallTo(x, domMutatorKeys...) {
+				continue
+			}
+			for _, a := range x.Common().Args {
+				if strings.Contains(c.Of(a), clone) {
+					hits = append(hits, fmt.Sprintf("%s at %s", core.Callee(x).Name(), p.Pos(in.Pos())))
+					break
+				}
+			}
+		case *ssa.Store:
+			if strings.Contains(c.Of(x.Addr), clone) {
+				hits = append(hits, fmt.Sprintf("store to %s at %s", shortVal(c.Of(x.Addr)), p.Pos(in.Pos())))
+			}
+		}
+	}
+	r.Add(rule, "nothing alters the clone before it is walked", p.Pos(conv.Pos()), len(hits) == 0, strings.Join(hits, "; "))
 }
